@@ -48,6 +48,9 @@ static ARMED: AtomicBool = AtomicBool::new(false);
 static IS_CHILD: AtomicBool = AtomicBool::new(false);
 static INNER_SEQ: AtomicUsize = AtomicUsize::new(0);
 static CHILD_K: AtomicUsize = AtomicUsize::new(0);
+// children that died (blocked or crashed): after 12 of them the rest of the sweep is skipped - the
+// point is made and every blocked child costs its alarm
+static DEAD: AtomicUsize = AtomicUsize::new(0);
 // the self-pipe of the instance (found by comparing the descriptor table around its creation): a
 // forked child shares the socket with the parent, so the parent restores its content afterwards
 static READ_FD: AtomicUsize = AtomicUsize::new(0);
@@ -107,6 +110,11 @@ extern "C" fn on_trap(_sig: libc::c_int, _info: *mut libc::siginfo_t, ctx: *mut 
         if !(libc::WIFEXITED(st) && libc::WEXITSTATUS(st) == 0) {
             let why = if libc::WIFSIGNALED(st) { format!("signal {}", libc::WTERMSIG(st)) } else { format!("exit {}", libc::WEXITSTATUS(st)) };
             out(&format!("X {} {}\n", step, why));
+            if DEAD.fetch_add(1, Ordering::Relaxed) + 1 >= 12 {
+                ARMED.store(false, Ordering::Relaxed);
+                let uc = ctx as *mut libc::ucontext_t;
+                unsafe { (*uc).uc_mcontext.gregs[libc::REG_EFL as usize] &= !TF };
+            }
         }
     }
 }
